@@ -365,6 +365,19 @@ def check_write(mtjs, mode_i, fmt, lig, enc):
                 bad('oc-file', '.oc has %r, expected %r' % (decode_counts(read(dest + '.oc', enc)), dict(lo)))
             if decode_counts(read(dest + '.OC', enc)) != dict(up):
                 bad('OC-file', '.OC has %r, expected %r' % (decode_counts(read(dest + '.OC', enc)), dict(up)))
+        if fmt in ('rcg', 'pmcfg') and not cf:
+            # a refused call is part of the history: the LoPar writer is asked for the same prefix, must refuse this
+            # grammar, and must leave the files of the write just checked (they share <prefix>.lex) as they are
+            before = {ext: open(dest + '.' + ext, 'rb').read() for ext in ('pmcfg', 'rcg', 'lex') if os.path.exists(dest + '.' + ext)}
+            try:
+                grammaroutput.lopar(G, lex, dest, enc)
+                bad('not-refused', 'a grammar with fan-out > 1 was written in LoPar format (second write, same prefix)')
+            except Exception:
+                pass
+            after = {ext: open(dest + '.' + ext, 'rb').read() for ext in before if os.path.exists(dest + '.' + ext)}
+            if after != before:
+                bad('refused-but-changed', 'a refused LoPar write to the same prefix changed the files of the %s write: %s'
+                    % (fmt, ', '.join('.%s %d -> %d bytes' % (e, len(before[e]), len(after.get(e, b''))) for e in before if after.get(e) != before[e])))
         if fmt == 'rcg' and not lig:
             g2, lex2 = grammarinput.rcg(dest, enc)
             if totals(g2) != expG:
@@ -512,7 +525,11 @@ def extra_banks():
     yield [b, d]
     yield [a, c, a]
     # size probes: rules with twelve and thirteen variables (two-digit variable numbers in the grammar files)
-    for sh in (tuple(range(1, 13)), ((1, 3, 5, 7, 9, 11, 13), 2, 4, 6, 8, 10, 12)):
+    # ... and rules in which a discontinuous child wraps around nine to eleven sisters, so that one predicate holds a
+    # one-digit and a two-digit variable ([0],[10]; [1],[11]; [0],[5],[12])
+    for sh in (tuple(range(1, 13)), ((1, 3, 5, 7, 9, 11, 13), 2, 4, 6, 8, 10, 12),
+               ((1, 11),) + tuple(range(2, 11)), ((1, 12),) + tuple(range(2, 12)), (1, (2, 12)) + tuple(range(3, 12)),
+               ((1, 6, 13), 2, 3, 4, 5, 7, 8, 9, 10, 11, 12), ((1, 12), (2, 13)) + tuple(range(3, 12))):
         n = len(model.leaves(sh))
         yield [model.MT(1, T(n, words=[WORDS[i % 8] for i in range(n)], pos=['x' if i % 2 else 'y' for i in range(n)]),
                         model.decorate(sh, lambda p, s: 'A'))]
